@@ -246,3 +246,32 @@ Fixpoint log_contexts (shared : bool) (base : list bytes) (rs : list req_ids) : 
   | [] => []
   | r :: t => let ctx := base ++ ids_of r in ctx :: log_contexts shared (if shared then ctx else base) t
   end.
+
+(* ---- the same with arrivals: a request starts at some point of the execution (EStart) and takes its
+        repository steps later (EStep); lin records the order in which repository calls were made ---- *)
+Inductive event := EStart (i : nat) | EStep (i : nat).
+
+Inductive rthread := RNotStarted (o : op) | RRunning (t : thread).
+
+Definition rt_event (e : event) (st : sstate) (ts : list rthread) (lin : list nat) : sstate * list rthread * list nat :=
+  match e with
+  | EStart i =>
+      match nth_error ts i with
+      | Some (RNotStarted o) => (st, set_nth i (RRunning (start_thread o)) ts, lin)
+      | _ => (st, ts, lin)
+      end
+  | EStep i =>
+      match nth_error ts i with
+      | Some (RRunning (TReady o)) =>
+          let '(st', t') := grant (thread_fid i) st (TReady o) in (st', set_nth i (RRunning t') ts, lin ++ [i])
+      | Some (RRunning (TAddSave id m)) =>
+          let '(st', t') := grant (thread_fid i) st (TAddSave id m) in (st', set_nth i (RRunning t') ts, lin)
+      | _ => (st, ts, lin)
+      end
+  end.
+
+Fixpoint rt_run (es : list event) (st : sstate) (ts : list rthread) (lin : list nat) : sstate * list rthread * list nat :=
+  match es with
+  | [] => (st, ts, lin)
+  | e :: r => let '(st', ts', lin') := rt_event e st ts lin in rt_run r st' ts' lin'
+  end.
